@@ -25,7 +25,7 @@ def modOpt (c : Cfg) (r : OptRef) (f : Opt → Opt × Bool × List CbCall) (ds :
 def optSetn (ty : Ty) (v : Val) (idx : Nat) (o : Opt) : Opt × Bool × List CbCall :=
   if o.ty != ty then (o, false, []) else setnVal o v idx
 
-/-- `cfg_setnint`, `cfg_setnfloat`, `cfg_setnstr`: look up, pre-set validation, store -/
+/-- `cfg_setnint`, `cfg_setnfloat`, `cfg_setnbool`, `cfg_setnstr`: look up, pre-set validation, store -/
 def apiSetn (orc : Oracle) (k : Nat) (c : Cfg) (path : Bytes) (ty : Ty) (v : Val) (idx : Nat) (byName : Bool) : ApiOut :=
   let p := getoptPath c path
   match p.ref with
@@ -34,11 +34,13 @@ def apiSetn (orc : Oracle) (k : Nat) (c : Cfg) (path : Bytes) (ty : Ty) (v : Val
     match c.getOpt r with
     | none => ⟨c, -1, p.diags, []⟩
     | some o =>
-      if byName && o.info.valid2Cb && ty != .bool then
+      if byName && o.info.valid2Cb then
+        -- (fix F54: cfg_setnbool() did not consult the callback; it is handed a pointer to the boolean, shown as 0 / 1)
         let call : CbCall := match v with
           | .int n => .valid2int o.name n
           | .flt b => .valid2flt o.name b
           | .str s => .valid2str o.name s
+          | .bool b => .valid2int o.name (if b then 1 else 0)
           | _ => .valid2int o.name 0
         match orc k call with
         | .fail => ⟨c, -1, p.diags ++ [.callback], [call]⟩
